@@ -102,7 +102,7 @@ theorem depth0 (h : Fam c A B T q fs) (down : Downstream) (i : String) (a : List
 /-- the child step of the plan when `B` owns the fields `bs ≠ []` -/
 def stepB (B T q : String) (bs : List FieldSpec) : Step := .mk B T (convertToNodeQuery T (leaves bs)) [q] []
 
-theorem buildBatch_child (h : Fam c A B T q fs) (bs : List FieldSpec) (i : String)
+theorem buildBatch_child (h : FamT c A B T q fs) (bs : List FieldSpec) (i : String)
     (hq1 : '#' ∉ q.toList) (hq2 : ':' ∉ q.toList) (hi : '#' ∉ i.toList) (hine : i ≠ "") :
     buildBatch c {} none [⟨stepB B T q bs, [pointQ q i]⟩]
       = .ok ([rqOf c (stepB B T q bs) [("id", .str i)]], [some 0]) := by
@@ -114,7 +114,7 @@ theorem buildBatch_child (h : Fam c A B T q fs) (bs : List FieldSpec) (i : Strin
     Bool.false_eq_true, ↓reduceIte, J.setKey, isNeedToQuery, hT, dedupKey, Bool.not_false, List.idxOf?_nil]
   simp [buildBatch.go, rqOf]
 
-theorem parseOne_child (h : Fam c A B T q fs) (bs : List FieldSpec) (p : String) (b : List (String × J)) :
+theorem parseOne_child (h : FamT c A B T q fs) (bs : List FieldSpec) (p : String) (b : List (String × J)) :
     parseOne ⟨stepB B T q bs, [p]⟩ [("node", .obj b)] = .ok (b, []) := by
   have hT : isRootName (stepB B T q bs).parentType = false := by simpa [stepB, Step.parentType] using h.hTroot
   unfold parseOne
@@ -147,9 +147,9 @@ theorem depth1 (h : Fam c A B T q fs) (down : Downstream) (bs : List FieldSpec) 
   have hurl : (stepB B T q bs).url = B := rfl
   unfold execDepth
   simp only [partitionByURL, List.foldl_cons, List.foldl_nil, List.find?_nil, List.nil_append, hurl,
-    List.foldlM_cons, List.foldlM_nil, bind, Except.bind, buildBatch_child h bs i hq1 hq2 hi hine, hdown,
+    List.foldlM_cons, List.foldlM_nil, bind, Except.bind, buildBatch_child h.toFamT bs i hq1 hq2 hi hine, hdown,
     List.length_cons, List.length_nil, bne_self_eq_false, Bool.false_eq_true, ↓reduceIte, List.zip_cons_cons,
-    List.zip_nil_right, List.getElem?_cons_zero, Option.getD_some, parseOne_child h bs (pointQ q i) b,
+    List.zip_nil_right, List.getElem?_cons_zero, Option.getD_some, parseOne_child h.toFamT bs (pointQ q i) b,
     mergeResult_child q i a b hq1 hq2 hqne hi hbnd hdisj, pure, Except.pure, List.append_nil]
 
 /-- **Stage 3 — execute**: two depths (one if `B` owns nothing); the result is the object under `q`
